@@ -10,7 +10,8 @@ From IE Require Import Lib.Tbl Lib.C05Lib Gen.Codepage Gen.Formats Model.Attr Mo
   Model.C05Idf Model.C05Tundra Model.C05Spec
   Proofs.C05BufProofs Proofs.C05BinProofs Proofs.C05AdfProofs Proofs.C05XBinProofs Proofs.C05IdfProofs Proofs.C05TundraProofs.
 From IE Require Model.C02Loaders Proofs.C02BridgeProofs.
-From IE Require Import Model.C05SpecX Model.C05XBinC Model.C05Files Proofs.C05XBinCProofs Proofs.C05XBinResaveProofs Proofs.C05FilesProofs.
+From IE Require Import Model.C05SpecX Model.C05XBinC Model.C05Files Proofs.C05XBinCProofs Proofs.C05XBinResaveProofs Proofs.C05FilesProofs
+  Proofs.C05IdfWideProofs.
 From IE Require Model.Sauce Model.SauceSpec.
 Import ListNotations.
 Local Open Scope Z_scope.
@@ -319,6 +320,40 @@ Theorem xb_file_roundtrip_two_fonts : forall dp compress p name ws d date,
   exists file b, xb_to_bytes compress true p name ws d = Ok file /\ xb_from_bytes dp file = Ok b /\ same_picture true [0%N; 1%N] p (pic_of b).
 Proof. exact xb_file_roundtrip2_proof. Qed.
 
+(* every .tnd file Buffer::from_bytes accepts, whatever SAUCE record it carries (C11: the width extract reports is never
+   negative, which is all the Tundra loader needs): written back with its record and read again as the same picture *)
+Theorem tnd_file_resave : forall dp bytes b,
+  is_bytes bytes -> tnd_from_bytes dp bytes = Ok b ->
+  0 <= b_h b -> b_w b * b_h b < 1073741824 -> (N.of_nat (length bytes) < 536870912)%N ->
+  forall name ws d date, SauceSpec.wf (wbuf_of (pic_of b) name ws) -> length d = 8%nat -> dp d = Some date ->
+  exists file' b', tnd_to_bytes true (pic_of b) name ws d = Ok file' /\ tnd_from_bytes dp file' = Ok b' /\
+                   same_picture_rgb (pic_of b) (pic_of b').
+Proof. exact tnd_file_resave_proof. Qed.
+
+(* ------------------------------------------------------------------ IDF without the width side condition *)
+(* the loader takes header widths up to 65536 but stores cells in its 80-column layer only; the writer has no width limit.
+   representable_idf_wide (Proofs/C05IdfWideProofs.v): width 1..65536, the first 80 cells of a row as in representable_idf,
+   the rest the cell Buffer::get_char returns outside the layer.  It contains representable_idf. *)
+Theorem idf_wide_contains_idf : forall p, representable_idf p -> representable_idf_wide p.
+Proof. exact representable_idf_is_wide. Qed.
+
+Theorem idf_roundtrip_any_width : forall compress p, representable_idf_wide p ->
+  exists data b, save_idf compress p = Ok data /\ load_idf data = Ok b /\ same_picture true [0%N] p (pic_of b).
+Proof. exact idf_roundtrip_wide_proof. Qed.
+
+(* idf_resave without `b_w b <= 80` (an artefact of the proof); `b_h b <= 200` stays because the writer really refuses: *)
+Theorem idf_resave_any_width : forall data b,
+  is_bytes data -> load_idf data = Ok b -> b_h b <= 200 ->
+  forall compress, exists data' b', save_idf compress (pic_of b) = Ok data' /\ load_idf data' = Ok b' /\
+                                    same_picture true [0%N] (pic_of b) (pic_of b').
+Proof. exact idf_resave_wide_proof. Qed.
+
+(* ... known finding 1 is the exact exception *)
+Theorem known_1_exact : forall data b compress,
+  is_bytes data -> load_idf data = Ok b ->
+  ((exists e, save_idf compress (pic_of b) = Err e) <-> KnownC05_idf_size (pic_of b)).
+Proof. exact idf_refused_iff_known. Qed.
+
 (* ------------------------------------------------------------------ non-vacuity of the extension *)
 (* a 9 x 2 two-font picture with runs: the compressed file is shorter, differs from the plain file only in the flag byte and the
    data section, and both load to the same buffer with pages 0 and 1 in place *)
@@ -336,5 +371,23 @@ Example demo_xb2_compressed :
       | _, _ => False
       end
   | _, _ => False
+  end.
+Proof. vm_compute. repeat split; reflexivity. Qed.
+
+(* an IDF file 100 columns wide: it loads 100 x 1 with an 80-column layer, is saved again (both writers) and loads as the same picture *)
+Definition demo_idf_wide_file : list N :=
+  IDF_V1_4_HEADER ++ [0; 0; 0; 0; 99; 0; 0; 0]%N ++ flat_map (fun i => [65 + i mod 26; i mod 256])%N (nrange 100)
+  ++ repeat 0%N 4096 ++ repeat 0%N 48.
+Example demo_idf_wide :
+  match load_idf demo_idf_wide_file with
+  | Ok b => b_w b = 100 /\ l_w (b_layer b) = 80 /\
+            match save_idf true (pic_of b), save_idf false (pic_of b) with
+            | Ok d1, Ok d2 => match load_idf d1, load_idf d2 with
+                              | Ok b1, Ok b2 => p_rows (pic_of b1) = p_rows (pic_of b) /\ p_rows (pic_of b2) = p_rows (pic_of b)
+                              | _, _ => False
+                              end
+            | _, _ => False
+            end
+  | _ => False
   end.
 Proof. vm_compute. repeat split; reflexivity. Qed.
